@@ -90,6 +90,9 @@ func convertValueToFloat(value any, typ reflect.Type) (float64, error) {
 	return 0, conversionError("", value, typ)
 }
 
+// maxRangeArray is the largest range that is turned into an array for an array filter.
+const maxRangeArray = 10_000_000
+
 // Convert value to the type. This is a more aggressive conversion, that will
 // recursively create new map and slice values as necessary. It doesn't
 // handle circular references.
@@ -233,8 +236,9 @@ func Convert(value any, typ reflect.Type) (any, error) { //nolint: gocyclo
 			}
 			return result.Interface(), nil
 		} else if r, ok := value.(Range); ok {
-			if r.Len() > math.MaxInt32 {
-				// more elements than any array filter can sensibly materialise (make would panic or exhaust memory)
+			if r.Len() > maxRangeArray {
+				// more elements than any array filter can sensibly materialise (make would panic or exhaust memory:
+				// 2^31 elements take 32 GiB); loops over such a range stay lazy and are not affected
 				return nil, typeErrorf("range of %d elements is too large to convert to an array", r.Len())
 			}
 			return r.AsArray(), nil
